@@ -33,8 +33,9 @@ func init() {
 				NeedCounters: []string{"best-effort-returned-at-once"}},
 			{Name: "reconnect-options-in-effect-hist-D4", Mode: "hist", Reset: kit.ResetGlobals, Cfg: vsched.Config{RandFree: true}, Body: func() { c14.Hist(4, kit.ChooseFree(2) == 1) },
 				NeedCounters: []string{"redial-after-refusal", "delay-capped", "delay-grew"}},
-			{Name: "readqlen-changed-while-a-connection-waits-for-room", Mode: "enum", Reset: kit.ResetGlobals, Body: qlenParked,
+			{Name: "readqlen-changed-while-a-connection-waits-for-room", Mode: "sched", Bound: map[string]int{"quick": 2, "thorough": 3}[tier], Reset: kit.ResetGlobals, Body: qlenParked,
 				NeedCounters: []string{"resized-with-a-message-waiting-for-room", "received-after-resize"}},
+			{Name: "unsupported-option-on-an-endpoint-beside-a-socket-option", Mode: "sched", Bound: map[string]int{"quick": 2, "thorough": 3}[tier], Reset: kit.ResetGlobals, Body: unsupportedBesideSocketOption},
 			{Name: "socket-options-reach-existing-dialers", Mode: "enum", Reset: kit.ResetGlobals, Body: sockOptsExisting,
 				NeedCounters: []string{"passed-on-to-existing-dialer"}},
 			{Name: "surveyor-readqlen-per-context", Mode: "enum", Reset: kit.ResetGlobals, Body: surveyorQLen,
@@ -253,7 +254,12 @@ var _ = fmt.Sprint
 // connection are waiting for room when ReadQLen is set again (same value, 2 or 4): the call
 // returns, the connection is still there - changing a queue length never disconnects a peer - and
 // once the application has taken what was queued, a message the peer sends next is received.
-func qlenParked() {
+func qlenParked() { QlenParked(true) }
+
+// QlenParked with detach=false is run under C17 with the ownership ledger on (what waited for room
+// while the queue was replaced is delivered once and owned by the application alone); the
+// disconnect clause is C19's.
+func QlenParked(detach bool) {
 	var ks []*kinds.Kind
 	for _, k := range kinds.All {
 		if k.CanRecv {
@@ -288,14 +294,24 @@ func qlenParked() {
 	if !c.Done() || c.Err != nil {
 		kit.Failf("qlen-reconf-hang:"+k.Name+":READQ-LEN", "%s: ReadQLen 1, three messages arrived (none received), SetOption(ReadQLen,%d): done=%v %s", k.Name, nl, c.Done(), kit.ErrName(c.Err))
 	}
-	if detached > 0 || x.P.ClosedByMangos() {
+	if detach && (detached > 0 || x.P.ClosedByMangos()) {
 		kit.Failf("qlen-detach:"+k.Name+":READQ-LEN", "%s: ReadQLen 1, three messages arrived on one connection (none received yet), then SetOption(ReadQLen,%d): the connection was closed (Detached fired %d time(s))", k.Name, nl, detached)
 	}
 	kit.Count("resized-with-a-message-waiting-for-room")
-	if k.Name != "req" && k.Name != "surveyor" {
+	if k.Name != "req" && k.Name != "surveyor" && !x.P.ClosedByMangos() {
+		seenQ := map[string]bool{}
 		for i := 0; i < 5; i++ {
 			d := kit.Start("drain", func() (interface{}, error) { return x.Recv() })
 			kit.Quiesce()
+			if d.Done() && d.Err == nil {
+				// what is delivered is something the peer sent, each message at most once (the order
+				// across a resize and losses at a resize are nobody's promise)
+				v := d.Val.(string)
+				if (v != "queued-0" && v != "queued-1" && v != "queued-2") || seenQ[v] {
+					kit.Failf("qlen-wrong-messages:"+k.Name, "%s: ReadQLen 1, messages queued-0..2 arrived, SetOption(ReadQLen,%d), then Recv returned %q (delivered before: %v)", k.Name, nl, clipS(v), seenQ)
+				}
+				seenQ[v] = true
+			}
 			if !d.Done() {
 				// nothing more queued: this Recv takes the next message
 				x.Feed("after-the-resize")
@@ -310,6 +326,77 @@ func qlenParked() {
 	}
 	kit.Observe("%s %d", k.Name, nl)
 	kit.Must("Close", func() { _ = x.S.Close() })
+}
+
+// unsupportedBesideSocketOption: one thread asks a dialer or listener for (or sets) an option
+// nobody supports while another sets a socket option that is passed down to every dialer and
+// listener.  Under every interleaving the first call returns ErrBadOption, the second succeeds and
+// GetOption then answers the value set - on the socket and on the endpoint.
+func unsupportedBesideSocketOption() {
+	onDialer := kit.ChooseFree(2) == 0
+	set := kit.ChooseFree(2) == 1
+	type so struct {
+		name string
+		val  interface{}
+	}
+	o := []so{{mangos.OptionReconnectTime, 70 * time.Millisecond}, {mangos.OptionMaxReconnectTime, 3 * time.Second},
+		{mangos.OptionDialAsynch, true}, {mangos.OptionMaxRecvSize, 4096}}[kit.ChooseFree(4)]
+	s, err := pull.NewSocket()
+	if err != nil {
+		kit.Failf("setup", "NewSocket: %v", err)
+	}
+	vt.Get("c19u-d").Script(vt.DialOK)
+	d, err := s.NewDialer("vt://c19u-d", nil)
+	if err != nil {
+		kit.Failf("setup", "NewDialer: %s", kit.ErrName(err))
+	}
+	l, err := s.NewListener("vt://c19u-l", nil)
+	if err != nil {
+		kit.Failf("setup", "NewListener: %s", kit.ErrName(err))
+	}
+	var ep interface {
+		SetOption(string, interface{}) error
+		GetOption(string) (interface{}, error)
+	} = l
+	who := "listener"
+	if onDialer {
+		ep, who = d, "dialer"
+	}
+	a := kit.Start("endpoint-call", func() (interface{}, error) {
+		if set {
+			return nil, ep.SetOption("NO-SUCH-OPTION", 1)
+		}
+		_, err := ep.GetOption("NO-SUCH-OPTION")
+		return nil, err
+	})
+	b := kit.Start("socket-call", func() (interface{}, error) { return nil, s.SetOption(o.name, o.val) })
+	kit.Quiesce()
+	if !a.Done() || !b.Done() {
+		kit.Failf("option-hang:"+who, "%s option call with an unsupported name (set=%v) beside Socket.SetOption(%s): endpoint call done=%v, socket call done=%v", who, set, o.name, a.Done(), b.Done())
+	}
+	if a.Err != mangos.ErrBadOption {
+		kit.Failf("unsupported-not-badoption:"+who, "%s: unsupported option name: %s, want ErrBadOption", who, kit.ErrName(a.Err))
+	}
+	if b.Err != nil {
+		kit.Failf("option-refused:"+o.name, "Socket.SetOption(%s,%v): %s", o.name, o.val, kit.ErrName(b.Err))
+	}
+	if v, err := s.GetOption(o.name); err != nil || v != o.val {
+		kit.Failf("get-after-set:socket:"+o.name, "socket: %s set to %v, GetOption answers %v (%s)", o.name, o.val, v, kit.ErrName(err))
+	}
+	if onDialer || o.name == mangos.OptionMaxRecvSize {
+		if v, err := ep.GetOption(o.name); err != nil || v != o.val {
+			kit.Failf("get-after-set:"+who+":"+o.name, "%s: the socket's %s was set to %v, the existing %s answers %v (%s)", who, o.name, o.val, who, v, kit.ErrName(err))
+		}
+	}
+	kit.Observe("%s %v %s", who, set, o.name)
+	kit.Must("Close", func() { _ = s.Close() })
+}
+
+func clipS(v string) string {
+	if len(v) > 24 {
+		return v[:24] + "..."
+	}
+	return v
 }
 
 func SubQLen() { subQLen() }
